@@ -142,6 +142,22 @@ fn special_cases(seed: u64, first: usize, n: usize) -> Vec<(String, Vec<(ItemPat
             (Visibility::Public, "En"),
             EnumDefinition::new(Type::ident(*rng.pick(&["u8", "u32", "i16", "u64"])), variants, Attributes(e_attrs)),
         ));
+        // a byte-aligned, non-packed struct (still emitted with repr(align(1)))
+        m.definitions.push(ItemDefinition::new(
+            (Visibility::Public, "Bytes"),
+            TypeDefinition::new([TypeStatement::field((Visibility::Public, "b"), if rng.coin() { Type::ident("u8") } else { Type::ident("u8").array(rng.range(1, 4)) })])
+                .with_attributes(Attributes(if rng.coin() { vec![Attribute::align(1), Attribute::copyable()] } else { vec![Attribute::copyable()] })),
+        ));
+        if rng.chance(1, 3) {
+            m.definitions.push(ItemDefinition::new(
+                (Visibility::Public, "PackedAroundBytes"),
+                TypeDefinition::new([
+                    TypeStatement::field((Visibility::Public, "x"), Type::ident("u32")),
+                    TypeStatement::field((Visibility::Public, "bytes"), Type::ident("Bytes")),
+                ])
+                .with_attributes([Attribute::packed()]),
+            ));
+        }
         // outer embeds them by value / in arrays / behind pointers, with its own independent markers
         let mut outer_attrs = mark(&mut rng);
         if rng.chance(1, 3) {
